@@ -654,12 +654,13 @@ class GateFromLog(Case):
 
     def run(self, H):
         import sfs_generator.asm_json as aj
-        blocks = [Blk('b0'), Blk('b1', optimizable=H.choice('b1_optimizable', [True, False])), Blk('b2')]
-        cfg = dict(blocks=blocks, index=dict((b.tag, i) for i, b in enumerate(blocks)), opt=[Blk('r%d' % i) for i in range(3)],
-                   eq=[H.bool('eq%d' % i) for i in range(3)])
+        blocks = [Blk('b0'), Blk('b1', optimizable=H.choice('b1_optimizable', [True, False])), Blk('b2'), Blk('b3')]
+        cfg = dict(blocks=blocks, index=dict((b.tag, i) for i, b in enumerate(blocks)), opt=[Blk('r%d' % i) for i in range(4)],
+                   eq=[H.bool('eq%d' % i) for i in range(4)])
         c = AsmContract("file.sol:C")
         c.init_code = [blocks[0], blocks[1]]
-        c.data = {"0": {"code": [blocks[2]]}}
+        # two sub-assemblies with code (a factory contract): each keeps exactly its own blocks
+        c.data = {"0": {"code": [blocks[2]]}, "1": {"code": [blocks[3]]}}
         noasm = AsmContract("file.sol:D", False)
         asm = aj.AsmJSON("v")
         asm._contracts = [c, noasm]
@@ -690,7 +691,12 @@ class GateFromLog(Case):
         if not ok:
             return
         nc, nd = d[0][1][1]
-        em = list(nc.init_code) + list(nc.data["0"]["code"])
+        sections = [list(nc.init_code), list(nc.data["0"]["code"]), list(nc.data["1"]["code"])]
+        H.check('every-code-section-holds-exactly-as-many-blocks-as-its-input-section', [len(x) for x in sections] == [2, 1, 1]
+                and sorted(nc.data.keys()) == ["0", "1"], info=repr([len(x) for x in sections]))
+        if [len(x) for x in sections] != [2, 1, 1]:
+            return
+        em = sections[0] + sections[1] + sections[2]
         for i, b in enumerate(blocks):
             if b._optimizable:
                 H.check('verified-block-is-the-rebuilt-one[%d]' % i, em[i] is cfg['opt'][i])
